@@ -49,7 +49,8 @@ func (om *options) try(args []string, c *ParseContext) (bool, []string) {
 			continue
 		}
 		if ok, nargs := (&opt{theOne: o, index: om.index}).Match(args, c); ok {
-			if o.ValueSetFromEnv {
+			if o.ValueSetFromEnv && sameStrings(nargs, args) {
+				// matched thanks to the env value, without consuming anything: matching it again would loop
 				c.ExcludedOpts[o] = struct{}{}
 			}
 			return true, nargs
